@@ -252,6 +252,13 @@ def gen_tree(r, bs=4096, nfiles=8, ndirs=3, hostile=False, specials=True, xattrs
                     if k.startswith(b"security.") and xattrs == "safe":
                         continue
                     e.xattrs[k] = r.choice(vals)
+                    # lengths that put the self-describing length prefix of a PAX record ("<len> SCHILY.xattr.<key>=<value>\n") next to a
+                    # power of ten (19 + len(key) + len(value) around 100, 20 + ... around 1000)
+                    c = r.random()
+                    if c < 0.3:
+                        e.xattrs[k] = bytes(r.choice(b"abcxyz0189") for _ in range(max(0, r.randrange(75, 98) - len(k))))
+                    elif c < 0.36:
+                        e.xattrs[k] = bytes(r.choice(b"abcxyz0189") for _ in range(max(0, r.randrange(970, 1090) - len(k))))
         # special files with attribute sets of their own (the extended variants of the fifo / socket / device / symlink inodes):
         # trusted.* is the one namespace every inode type may carry on the host
         n = 0
@@ -314,13 +321,26 @@ def emit_packfile(ents, root, name="pack.txt"):
     return p
 
 
+def xattr_value_text(v):
+    """one of the three value encodings of the xattr map file, chosen by the value itself (so the same tree always gives the same file)"""
+    import base64
+    if not v:
+        return b'""'
+    pick = (len(v) + sum(v)) % 3
+    if pick == 1:
+        return b"0s" + base64.b64encode(v)
+    if pick == 2 and all(32 <= c < 127 for c in v) and not v[:2].lower() in (b"0x", b"0s") and v == v.strip():
+        return b'"' + b"".join(b"\\%03o" % c if c in (0x22, 0x5c) else bytes([c]) for c in v) + b'"'
+    return b"0x" + v.hex().encode()
+
+
 def emit_xattr_file(ents, root, name="xattr.txt"):
     out = []
     for e in ents:
         if e.xattrs:
             out.append(b"# file: " + e.path)
             for k, v in sorted(e.xattrs.items()):
-                out.append(k + b"=0x" + v.hex().encode() if v else k + b'=""')
+                out.append(k + b"=" + xattr_value_text(v))
             out.append(b"")
     p = os.path.join(root, name)
     with open(p, "wb") as f:
